@@ -420,6 +420,7 @@ type c18Scenario struct {
 	dupDrops uint64
 	sendFail uint64
 	finalSel [2]bool
+	off      time.Duration // c18Send.Call/Ret + off = the same instant on the history's clock (Ev.T)
 }
 
 func c18Payload(r *rand.Rand, idx int64, role, n, blocks int, small bool) (payload, body []byte) {
@@ -524,6 +525,7 @@ func c18Run(env *fw.Env, p *c18Plan) *c18Scenario {
 
 	// workload
 	base := time.Now()
+	sc.off = base.Sub(mitm.Base())
 	for role := 0; role < 2; role++ {
 		for n, blocks := range p.Msgs[role] {
 			payload, body := c18Payload(r, p.Idx, role, n, blocks, p.Small)
@@ -1077,6 +1079,18 @@ func c18AckedThenClosed(sc *c18Scenario, role int, s *c18Send) string {
 		}
 		if ev.Kind == "CLOSE" {
 			if acked < 0 {
+				return ""
+			}
+			// this shape names ONE mechanism: the receiving connection had already begun to tear its link down
+			// (its own send had exhausted the retries) when it ACKed the block. A close that merely follows
+			// later in the history is not that.
+			tearing := false
+			for _, rs := range sc.sends[1-role] {
+				if rs.Returned && strings.Contains(rs.Err, "retries exhausted") && rs.Ret+sc.off <= sc.hist[acked].T+100*time.Millisecond {
+					tearing = true
+				}
+			}
+			if !tearing {
 				return ""
 			}
 			closer := "receiver"
